@@ -106,4 +106,24 @@ theorem Enc.bytes_spec (start : Nat) (slots : Slots) (hs : slotsOk slots) (hne :
 theorem Enc.bytes_empty (start : Nat) : ((Enc.fresh start).appendAll []).bytes.1 = none := by
   simp [Enc.appendAll, Enc.bytes, Enc.fresh]
 
+theorem slotsOk_of (slots : Slots) (h : ∀ v, some v ∈ slots → v < 2 ^ 64) : slotsOk slots :=
+  fun v hv => by simpa [two64] using h v hv
+
+
+/-- a reuse history of one pooled TSD encoder -/
+inductive EncOp
+  | get (start : Nat)       -- GetTSDEncoder(start) returning this object / RestWithStartTime(start)
+  | slot (s : Option Nat)   -- AppendTime (+ AppendValue)
+  | bytes                   -- Bytes()
+
+def runEnc : Enc → List EncOp → Enc × List (Option (List Nat))
+  | e, [] => (e, [])
+  | e, .get s :: ops => runEnc (e.resetWithStartTime s) ops
+  | e, .slot s :: ops => runEnc (e.appendSlot s) ops
+  | e, .bytes :: ops =>
+    let (b, e1) := e.bytes
+    let (e2, bs) := runEnc e1 ops
+    (e2, b :: bs)
+
+
 end LinVerif.Tsd
